@@ -17,15 +17,17 @@ LEAN_TARGETS = ['Swiftness.Props.C16']
 TRANSLATOR_PARTS = ('consts', 'ast')
 LAYOUTS = ['dex', 'dynamic', 'recursive', 'recursive_with_poseidon', 'small', 'starknet', 'starknet_with_keccak']
 DRV_LAYOUTS = LAYOUTS
-BUILDS = {'quick': [('k160', 'stone5', 'full', 'all_layouts')], 'thorough': [('k160', 'stone5', 'full', 'all_layouts')]}
+BUILDS = {'quick': [('k160', 'stone5', 'full', 'all_layouts', 'parser')], 'thorough': [('k160', 'stone5', 'full', 'all_layouts', 'parser')]}
 RULE = ('per layout and per evaluator (composition, DEEP): R random full inputs (mask/columns, oods values, point, oods point, trace '
         'generator, every global value, coefficient vector) compared model-vs-code; additivity triples (c1, c2, c1+c2) and a scaled vector on '
         'the real code; every unit coefficient vector e_i on the real code (value must be non-zero for every position of an enabled '
-        'component; dynamic layout: the shipped instance and ~16 instances with other builtin switches — each alone, all, none, random subsets). R = 2 quick / 8 thorough. non-trivial = all.')
+        'component; dynamic layout: the shipped instance and ~16 instances with other builtin switches — each alone, all, none, random subsets). R = 2 quick / 8 thorough. Whole eval_composition_polynomial (global-value assembly '
+        'around the inner evaluator) on the shipped public input of every layout / dynamic instance with random interaction elements, mask, coefficients, point; trace sizes t, t+1, 2^12..2^30: model-vs-code. non-trivial = all.')
 ASSUMPTIONS = ['non-vanishing is tested at random points (Schwartz-Zippel), not proved',
                'dynamic layout instances: shipped parameters with builtin switches toggled (row ratios of newly enabled builtins set to 16)']
 TRUSTED = ['tools/gen_ast.py + tools/rustexpr.py (translator); DumpAst.lean printer check; Python additivity / non-zero oracle']
 META = None
+HX = None
 
 
 def meta():
@@ -149,6 +151,26 @@ def cases(rng, tier, feats, drv_ok):
         out.append({'line': comp_line(L, [1] * (M - 1), [1] * N, 5, 7, [3] * ngv), 'kind': f'{L}:composition:short-mask', 'layout': L, 'fn': 'composition'})
         out.append({'line': comp_line(L, [1] * M, [1] * (N - 1), 5, 7, [3] * ngv), 'kind': f'{L}:composition:short-coeffs', 'layout': L, 'fn': 'composition'})
     CUR_DYN = None
+    # the layouts' eval_composition_polynomial as a whole (assembly of the global values around the inner evaluator: segment addresses,
+    # periodic columns at point^(trace/ratio), public-memory ratio, diluted product; dynamic: per-builtin switches and declared ratios):
+    # real code vs model on the shipped public inputs with random interaction elements, masks, coefficients and points
+    if HX and 'parser' in feats:
+        from props import C14
+        C14.HX = HX
+        pis = C14.bases()
+        for L, iname, dynv in runs:
+            if L not in pis: continue
+            pi, t, c = pis[L]
+            if dynv is not None:
+                pi = dict(pi, dyn=list(dynv))
+            N, M, D, ncols = layout_dims(L)
+            ief = meta()[L]['interaction']
+            for r in range(2 if iname in (None, 'shipped') else 1):
+                ie = ';'.join(f'{n}:{hexf(rng.felt())}' for n in ief)
+                tds = 1 << (t if r == 0 else rng.choice([t, t + 1, 12, 24, 30]))
+                out.append({'line': f'eval_comp {L} {ie} {C14.pi_tokens(pi)} {hexl([rng.felt() for _ in range(M)])} {hexl([rng.felt() for _ in range(N)])} '
+                                    f'{hexf(rng.felt())} {hexf(tds)} {hexf(rng.felt())}',
+                            'kind': f'{L}:composition:preamble', 'layout': L if iname is None else f'dynamic[{iname}]', 'fn': 'composition'})
     return out
 
 
@@ -162,7 +184,7 @@ def nontrivial(c, co):
 
 def oracle(c, co):
     k = c['kind'].split(':')[2]
-    if k.startswith('short'):
+    if k.startswith('short') or k == 'preamble':
         return None
     if co[0] != 'ok':
         return {'key': f"{c['kind']}:{co[0]}", 'what': f"{c['kind']} evaluation did not return a value: {co[0]} {co[1][:100]}"}
